@@ -499,6 +499,204 @@ Section Calls.
 End Calls.
 
 (* ------------------------------------------------------------------------------------ *)
+(** * The Decoder object (ttlv/decoder.go)
+
+    [Decoder{*extension, r reader}]; nested decoders ([Decoder.Struct]) share the extension
+    pointer, each has its own reader over the children of the structure.  The three
+    readers are abstracted to a cursor over the list of items at the current level
+    ([reader.Tag()] = tag of the first item, 0 at the end; a structure's unread children
+    are skipped when its callback returns). *)
+Definition cursor := list item.
+
+(** [Decoder.Tag] *)
+Definition c_tag (c : cursor) : Z :=
+  match c with
+  | [] => 0
+  | IPrim t _ :: _ => t
+  | IStruct t _ :: _ => t
+  end.
+
+(** What [decodeFunc(ty)] returns. *)
+Inductive dplan :=
+| DLeaf (k : lkind)
+| DPtr (p : dplan)                      (* buildPointerDecodeFunc *)
+| DSlice (elem_is_ptr : bool) (p : dplan) (* buildSliceDecodeFunc: decodeFuncFor( *elem ) in a loop *)
+| DStruct (fs : list dfield)            (* buidStructDecodeFunc *)
+| DIface                                (* reflect.Interface: d.decodeValue(tag, value.Elem()) *)
+with dfield :=
+| DField (o : fopts) (p : dplan).
+
+(** Result of a decode call: value, the decoder's version afterwards, the rest of the
+    cursor; an [error]; a panic; [RBad]: model fuel exhausted / ill-typed (never observed). *)
+Inductive dr (A : Type) : Type :=
+| ROk (a : A) (x : ext) (c : cursor)
+| RErr
+| RPanic
+| RBad.
+Arguments ROk {A}. Arguments RErr {A}. Arguments RPanic {A}. Arguments RBad {A}.
+
+(** [reflect.Value.SetZero] *)
+Fixpoint dzero (p : dplan) : value :=
+  match p with
+  | DLeaf KInt => VLeaf (LInt 0)
+  | DLeaf KLong => VLeaf (LLong 0)
+  | DLeaf KBool => VLeaf (LBool false)
+  | DLeaf KStr => VLeaf (LText [])
+  | DLeaf KByteSlice => VLeaf (LBytes [])
+  | DLeaf KDuration => VLeaf (LInterval 0)
+  | DPtr _ => VNil
+  | DSlice _ _ => VList []
+  | DStruct fs => VStruct (map (fun f => match f with DField _ q => dzero q end) fs)
+  | DIface => VNil
+  end.
+
+Definition dr_map {A B} (g : A -> B) (r : dr A) : dr B :=
+  match r with
+  | ROk a x c => ROk (g a) x c
+  | RErr => RErr
+  | RPanic => RPanic
+  | RBad => RBad
+  end.
+
+(** Field wrappers, outermost first: applySetVersionDecode (after a successful decode, the
+    version becomes the decoded value's), applyVersionRangeDecode (a field outside the
+    current version is optional), applyOmitEmptyDecode (optional). *)
+Definition field_absent (o : fopts) (x : ext) (c : cursor) : bool :=
+  let missing := negb (c_tag c =? f_tag o) in
+  (match f_range o with
+   | Some r => negb (version_in x r) && missing
+   | None => false
+   end)
+  || (f_omit o && missing).
+
+Definition after_setver (o : fopts) (r : dr value) : dr value :=
+  if f_setver o then
+    match r with
+    | ROk v _ c =>
+        match value_version v with
+        | Some vv => ROk v (Some vv) c
+        | None => RBad
+        end
+    | _ => r
+    end
+  else r.
+
+(** [for d.Tag() == tag { elem := reflect.New(elemTy); ff(d, tag, elem); append }] *)
+Definition dec_loop (elem : ext -> cursor -> dr value) (isptr : bool) (tag : Z)
+  : nat -> ext -> cursor -> list value -> dr value :=
+  fix loop (n : nat) (x : ext) (c : cursor) (acc : list value) : dr value :=
+    match n with
+    | O => RBad
+    | S n' =>
+        if c_tag c =? tag then
+          match elem x c with
+          | ROk v x' c' => loop n' x' c' (acc ++ [if isptr then VPtr v else v])
+          | RErr => RErr
+          | RPanic => RPanic
+          | RBad => RBad
+          end
+        else ROk (VList acc) x c
+    end.
+
+(** One entry of [fieldsDecode]. *)
+Definition dec_field (rec : dplan -> Z -> ext -> cursor -> dr value) (fd : dfield) (x : ext) (c : cursor)
+  : dr value :=
+  match fd with
+  | DField o q =>
+      after_setver o (if field_absent o x c then ROk (dzero q) x c else rec q (f_tag o) x c)
+  end.
+
+(** [for _, fd := range fieldsDecode { if err := fd(d, value); err != nil { return err } }] *)
+Definition dec_fields (g : dfield -> ext -> cursor -> dr value)
+  : list dfield -> ext -> cursor -> dr (list value) :=
+  fix go (fs : list dfield) (x : ext) (c : cursor) : dr (list value) :=
+    match fs with
+    | [] => ROk [] x c
+    | fd :: fs' =>
+        match g fd x c with
+        | ROk v x1 c1 => dr_map (cons v) (go fs' x1 c1)
+        | RErr => RErr
+        | RPanic => RPanic
+        | RBad => RBad
+        end
+    end.
+
+Fixpoint dec (fuel : nat) (p : dplan) (tag : Z) (x : ext) (c : cursor) {struct fuel} : dr value :=
+  match fuel with
+  | O => RBad
+  | S f =>
+      match p with
+      | DLeaf k =>
+          (* reader.Integer(tag) ...: assertType then the value *)
+          match c with
+          | IPrim t l :: rest => if (t =? tag) && leaf_matches k l then ROk (VLeaf l) x rest else RErr
+          | _ => RErr
+          end
+      | DPtr q =>
+          if c_tag c =? tag then dr_map VPtr (dec f q tag x c) else ROk VNil x c
+      | DSlice isptr q => dec_loop (dec f q tag) isptr tag (S (length c)) x c []
+      | DStruct fs =>
+          (* Decoder.Struct: the fields read the children, whatever is left is skipped *)
+          match c with
+          | IStruct t ch :: rest =>
+              if t =? tag then
+                match dec_fields (dec_field (dec f)) fs x ch with
+                | ROk vs x' _ => ROk (VStruct vs) x' rest
+                | RErr => RErr
+                | RPanic => RPanic
+                | RBad => RBad
+                end
+              else RErr
+          | _ => RErr
+          end
+      | DIface => RPanic
+      end
+  end.
+
+(** Successive [Decoder.TagAny] calls on one Decoder (one buffer holding several values). *)
+Inductive dobs := DoOk (v : value) | DoErr | DoPanic | DoBad.
+
+Fixpoint run_decodes (fuel : nat) (calls : list (dplan * Z)) (x : ext) (c : cursor) : list dobs :=
+  match calls with
+  | [] => []
+  | (p, tag) :: rest =>
+      match dec fuel p tag x c with
+      | ROk v x' c' => DoOk v :: run_decodes fuel rest x' c'
+      | RErr => [DoErr]       (* the caller gives up on this decoder *)
+      | RPanic => [DoPanic]
+      | RBad => [DoBad]
+      end
+  end.
+
+(** The plan never asks for, nor sets, the version. *)
+Fixpoint no_query (p : dplan) : bool :=
+  match p with
+  | DLeaf _ => true
+  | DPtr q => no_query q
+  | DSlice _ q => no_query q
+  | DStruct fs =>
+      forallb (fun f => match f with
+                        | DField o q =>
+                            negb (f_setver o) && match f_range o with None => true | Some _ => false end
+                            && no_query q
+                        end) fs
+  | DIface => true
+  end.
+
+(** The value carries its own version first (decode side of [sets_first]). *)
+Fixpoint dsets_first (p : dplan) : bool :=
+  match p with
+  | DStruct (DField o q :: _) =>
+      match f_range o with
+      | Some _ => false
+      | None =>
+          if f_setver o then no_query q
+          else negb (f_omit o) && dsets_first q
+      end
+  | _ => false
+  end.
+
+(* ------------------------------------------------------------------------------------ *)
 (** * The plan caches as a transition system (encodeFuncFor / decodeFuncFor)
 
     [P] is the type of plans, [deps ty] the types whose plans [encodeFunc(ty)] asks for
